@@ -908,7 +908,7 @@ func (s *scanner) scanName() string {
 
 func isName(r rune) bool {
 	return string(r) != ":" && string(r) != "/" &&
-		(unicode.Is(first, r) || unicode.Is(second, r) || string(r) == "*")
+		(unicode.Is(first, r) || unicode.Is(second, r))
 }
 
 func isDigit(r rune) bool {
